@@ -59,8 +59,22 @@ func runQuery(dir, name, text string, timeoutMs int) SolveResult {
 		ms     int64
 	}
 	ch := make(chan one, len(solvers))
+	// z3 4.8.12 is unsound on sequences whose elements are datatypes when quantified axioms are present
+	// (it answers unsat on satisfiable formulas; minimal reproduction in DESIGN.md): it is not consulted
+	// for such queries.
+	seqOfData := strings.Contains(text, "(Seq D_") || strings.Contains(text, "(Seq Any") || strings.Contains(text, "(Seq (Seq")
+	active := 0
+	for _, s := range solvers {
+		if seqOfData && s.Name == "z3-4.8.12" {
+			continue
+		}
+		active++
+	}
 	for _, s := range solvers {
 		s := s
+		if seqOfData && s.Name == "z3-4.8.12" {
+			continue
+		}
 		go func() {
 			procSem <- struct{}{}
 			defer func() { <-procSem }()
@@ -100,7 +114,7 @@ func runQuery(dir, name, text string, timeoutMs int) SolveResult {
 	res := SolveResult{Status: "unknown", PerSolv: map[string]string{}}
 	var sat, unsat *one
 	nerr := 0
-	for i := 0; i < len(solvers); i++ {
+	for i := 0; i < active; i++ {
 		r := <-ch
 		res.PerSolv[r.solver] = fmt.Sprintf("%s (%d ms)", r.status, r.ms)
 		rr := r
@@ -119,7 +133,7 @@ func runQuery(dir, name, text string, timeoutMs int) SolveResult {
 			nerr++
 		}
 	}
-	if nerr == len(solvers) {
+	if nerr == active {
 		res.Status = "error"
 	}
 	switch {
